@@ -79,7 +79,7 @@ def run(tier, seed):
         if len(hists) < 5000:
             raise core.ToolError("Gen_Input produced only %d plans" % len(hists))
         plans = [{"id": "g%d" % k, "steps": activation.happy_prefix() + h} for k, h in enumerate(hists)]
-        nsim = 60 if tier == "quick" else 600
+        nsim = 60 if tier == "quick" else 3000
         sim, walks = activation.generate(wd, 6, simulate="num=%d" % nsim, seed=seed, module="Gen_Input")
         for k, h in enumerate(walks):
             plans.append({"id": "walk%d" % k, "steps": activation.happy_prefix() + h})
